@@ -18,7 +18,78 @@ type c09WS struct {
 	Files map[string]string `json:"files"`
 }
 
+// c09GeneratedDup: the same global defined in 2-4 files; the form of each definition (function statement of some arity,
+// function / table / literal assignment), its line (leading blank lines), its column (indentation, a statement before it on
+// the line) and its nesting (top level, do-block, function body) are drawn independently, so that definitions tie on some
+// of (function level, scope level, line, column) and differ on the others.
+func c09GeneratedDup(r *Rng) c09WS {
+	n := r.Range(2, 4)
+	files := map[string]string{}
+	for i := 0; i < n; i++ {
+		var def string
+		switch r.Intn(5) {
+		case 0:
+			def = fmt.Sprintf("function GDup(%s) return %d end", strings.Join([]string{"a", "b", "c"}[:r.Range(1, 3)], ", "), i)
+		case 1:
+			def = fmt.Sprintf("GDup = function(%s) return %d end", strings.Join([]string{"p", "q", "r"}[:r.Range(1, 3)], ", "), i)
+		case 2:
+			def = fmt.Sprintf("GDup = { field%d = %d }", i, i)
+		case 3:
+			def = fmt.Sprintf("GDup = %d", i)
+		default:
+			def = fmt.Sprintf("GDup = \"s%d\"", i)
+		}
+		lead := strings.Repeat("\n", r.Intn(3))
+		switch r.Intn(5) {
+		case 0:
+			def = "local pad" + fmt.Sprint(i) + " = 1; " + def // same line, other column
+		case 1:
+			def = "do\n  " + def + "\nend" // other scope level
+		case 2:
+			def = "do " + def + " end" // other scope level, same line as the `do`
+		case 3:
+			def = fmt.Sprintf("local function setter%d()\n  %s\nend\nsetter%d()", i, def, i) // other function level
+		}
+		files[fmt.Sprintf("def%d.lua", i)] = lead + def + "\n"
+	}
+	files["user.lua"] = "local r = GDup(1, 2)\nprint(r, GDup.field0, GDup.field1)\nlocal v = GDup\nprint(v)\n"
+	return c09WS{"dup-global-generated", files}
+}
+
+// c09CrossFileMembers: several files add the same member (and sub-members) to a global table that another file defines.
+func c09CrossFileMembers(r *Rng) c09WS {
+	files := map[string]string{"defs.lua": "GTab = {}\nGOther = { own = 1 }\n"}
+	n := r.Range(2, 4)
+	for i := 0; i < n; i++ {
+		var sb strings.Builder
+		sb.WriteString(strings.Repeat("\n", r.Intn(4)))
+		for k := r.Range(1, 3); k > 0; k-- {
+			switch r.Intn(5) {
+			case 0:
+				fmt.Fprintf(&sb, "function GTab.sub:meth%d(a)\n  return a\nend\n", i)
+			case 1:
+				fmt.Fprintf(&sb, "GTab.sub.fld%d = %d\n", i, i)
+			case 2:
+				fmt.Fprintf(&sb, "function GTab.sub.deep%d.fn()\nend\n", i)
+			case 3:
+				fmt.Fprintf(&sb, "GTab.sub = { from%d = %d }\n", i, i)
+			default:
+				fmt.Fprintf(&sb, "GOther.own = %d\nGOther.added%d = %d\n", i, i, i)
+			}
+		}
+		files[fmt.Sprintf("add%d.lua", i)] = sb.String()
+	}
+	files["user.lua"] = "local s = GTab.sub\nprint(s, GTab.sub.fld0, GTab.sub.from1, GOther.own)\nGTab.sub.meth0(1)\nlocal t = GTab.su\nlocal u = GTab.sub.f\n"
+	return c09WS{"cross-file-members-of-global", files}
+}
+
 func c09Collision(r *Rng) c09WS {
+	switch r.Intn(4) {
+	case 0, 1:
+		return c09GeneratedDup(r)
+	case 2:
+		return c09CrossFileMembers(r)
+	}
 	switch r.Intn(5) {
 	case 0: // the same global function defined in 2-3 files with different arities; a caller elsewhere
 		n := r.Range(2, 3)
@@ -40,9 +111,9 @@ func c09Collision(r *Rng) c09WS {
 		return c09WS{"dup-global-variable", files}
 	case 2: // same base name in different directories, required by a third file
 		files := map[string]string{
-			"a/util.lua":  "local M = { fromA = 1 }\nreturn M\n",
-			"b/util.lua":  "local M = { fromB = 2 }\nreturn M\n",
-			"main.lua":    "local u = require(\"util\")\nprint(u.fromA, u.fromB)\n",
+			"a/util.lua": "local M = { fromA = 1 }\nreturn M\n",
+			"b/util.lua": "local M = { fromB = 2 }\nreturn M\n",
+			"main.lua":   "local u = require(\"util\")\nprint(u.fromA, u.fromB)\n",
 		}
 		if r.Bool() {
 			files["c/d/util.lua"] = "local M = { fromC = 3 }\nreturn M\n"
@@ -187,7 +258,7 @@ func c09Observe(c *Ctx, w c09WS, run int, r *Rng, tag string) ([]string, error) 
 
 func runC09(c *Ctx) {
 	nUnique := c.N(24, 400)
-	nColl := c.N(24, 300)
+	nColl := c.N(40, 500)
 	R := c.N(6, 30)
 	root := NewRng(c.Seed).Fork(9)
 	var wss []c09WS
@@ -277,7 +348,8 @@ func runC09(c *Ctx) {
 	c.Set("runs_per_workspace", R)
 	c.Sample(map[string]interface{}{"kind": wss[0].Kind, "files": truncate(fmt.Sprint(wss[0].Files), 400)})
 	c.Finish("every workspace (generated with unique names, the repository's testdata projects, and collision workspaces: duplicate globals with different "+
-		"arity/level, same-basename modules, duplicate annotation classes) is analysed by R independent server processes with GOMAXPROCS cycling 1/2/16 and "+
+		"arity/level, generated duplicate globals whose definitions tie or differ independently in form, line, column, scope level and function level, members added to a global table from several files, "+
+		"same-basename modules, duplicate annotation classes) is analysed by R independent server processes with GOMAXPROCS cycling 1/2/16 and "+
 		"shuffled file creation order; the sorted diagnostics and probe answers (definition, hover, references, completion, documentSymbol, workspace/symbol) "+
 		"must be identical. distinct_nontrivial = workspaces whose R observations were all equal", 10)
 }
